@@ -445,10 +445,12 @@ func (e *compatEngine) live() {
 	wc.defs["EmitObserved"] = "{" + strings.Join(order, ",\n ") + "}"
 	wc.plain["EmitDepth"] = fmt.Sprint(maxLen)
 	reached := map[string]*wRec{}
+	prefixes := map[string]bool{}
 	var mu sync.Mutex
 	ok := wireRunObserved(c, "live emission (code -> spec)", wc, func(raw []byte, r *wRec) {
 		k := tlaFrames(r.Frames)
 		mu.Lock()
+		prefixes[k] = true
 		if _, want := seen[k]; want {
 			cp := *r
 			reached[k] = &cp
@@ -464,10 +466,32 @@ func (e *compatEngine) live() {
 		r, ok := reached[k]
 		if !ok {
 			notEmittable++
-			if notEmittable <= 3 {
-				// the model of the emitter does not cover what the code did: a model gap, not a verdict about the code
-				c.Inconclusive("frame sequence emitted by the real stream layer is not a behaviour of EmitNew in Wire.tla: %s (script %v)", k, scripts[ob.script])
+			// code -> spec: the recorded emission is not a behaviour of the emitter of Wire.tla, whose
+			// language is what a v0.0.17 peer is known to understand (minus control packets)
+			l := 0
+			for l < len(ob.frames) && prefixes[tlaFrames(ob.frames[:l+1])] {
+				l++
 			}
+			f := ob.frames[l]
+			rel := "first frame"
+			if l > 0 {
+				p := ob.frames[l-1]
+				switch {
+				case f.Sid == p.Sid && f.Mid == p.Mid:
+					rel = "same id as the previous frame"
+				case f.Sid == p.Sid && f.Mid > p.Mid:
+					rel = "later message of the same stream"
+				case f.Sid > p.Sid:
+					rel = "later stream"
+				default:
+					rel = "id going backwards"
+				}
+				if !p.Done {
+					rel += ", previous frame not done"
+				}
+			}
+			e.violate(fmt.Sprintf("stream layer puts a frame on the wire that EmitNew of Wire.tla does not allow: kind=%d control=%v done=%v empty=%v (%s)", f.Kind, f.Control, f.Done, f.Len == 0, rel),
+				[]byte(fmt.Sprintf(`{"live_frames":%q}`, k)), map[string]any{"script": scripts[ob.script], "accepted_prefix": l})
 			continue
 		}
 		cc := &concrete{bytes: ob.data, ids: idIdentity}
